@@ -265,7 +265,11 @@ def k_cli(run, case):
     run.hit("evo_ape / evo_rpe runs with time offsets and cropping judged" if rec else "run refused / ambiguous (not judged)")
 
 
-KINDS = {"assoc": k_assoc, "indices": k_indices, "cli": k_cli}
+from vmon import threads as _threads
+k_threads = _threads.k_evaluation('associate', 'time association', 'threads:association-not-reentrant')
+
+
+KINDS = {"threads": k_threads, "assoc": k_assoc, "indices": k_indices, "cli": k_cli}
 
 CORPUS = [
     # contested nearest counterpart (design finding F2)
@@ -291,6 +295,8 @@ def main(run):
         k_assoc(run, run.case("assoc", 10**6 + i, **CORPUS[i]))
     for i in run.mine(n):
         k_assoc(run, run.case("assoc", i))
+    for i in run.mine({"quick": 12, "thorough": 200}[run.tier]):
+        k_threads(run, run.case("threads", i))
     for i in run.mine(n // 3):
         k_indices(run, run.case("indices", i))
     if run.tier == "thorough":
@@ -302,7 +308,7 @@ def main(run):
     for i in run.mine({"quick": 80, "thorough": 2000}[run.tier]):
         k_cli(run, run.case("cli", 10**6 + i, tool="traj", fmt=["tum", "euroc"][i % 2],
                             force={"use_ref": True, "sync": True, "merge": False, "downsample": False, "motion_filter": False}))
-    run.need("evo_traj runs with synchronisation to a reference judged", "evo_ape / evo_rpe runs with time offsets and cropping judged", "assoc: pair within max_diff", "assoc: paired with a nearest counterpart",
+    run.need("concurrent rounds: time association", "evo_traj runs with synchronisation to a reference judged", "evo_ape / evo_rpe runs with time offsets and cropping judged", "assoc: pair within max_diff", "assoc: paired with a nearest counterpart",
              "assoc: every uncontested in-range pose is paired",
              "assoc: increasing order, no pose used twice", "inputs unmodified",
              "output pose is an unmodified copy (pose+stamp together)",
